@@ -7,6 +7,8 @@ import (
 	"net/http"
 	"strconv"
 	"strings"
+
+	"golang.org/x/net/http/httpguts"
 )
 
 func DecodeHeader(headerString string) (reqSize int, tag string, err error) {
@@ -25,5 +27,11 @@ func DecodeRequest(reqString []byte) (req *http.Request, err error) {
 		return
 	}
 	req.RequestURI = ""
+	// ReadRequest reads the ammo as a server would and marks an HTTP/1.0 request "close after the reply".
+	// The gun sends HTTP/1.1 whatever version the ammo names, and connection reuse is the gun's keep-alive
+	// option; only an explicit `Connection: close` header of the ammo asks to close.
+	if req.ProtoMajor == 1 && req.ProtoMinor == 0 {
+		req.Close = httpguts.HeaderValuesContainsToken(req.Header["Connection"], "close")
+	}
 	return req, err
 }
